@@ -237,10 +237,10 @@ func TestVerif_C11(t *testing.T) {
 		return
 	}
 	prod, _ := c02Product()
-	cfgStride := pick(r, 41, 3)
+	cfgStride := pick(r, 23, 3)
 	shapes := [][]string{nil, {}, {""}, {"https://example.com"}, {"https://example.com", "https://other.invalid"}}
 	acrmShapes := [][]string{nil, {}, {""}, {"PUT"}, {"GET", "PUT"}}
-	nProgs := pick(r, 3, 12)
+	nProgs := pick(r, 6, 12)
 	// batches: configurations + 2 passthrough kinds
 	r.Parallel(len(prod)+2*pick(r, 8, 64), func(l *Local) {
 		rng := l.Rng
